@@ -7,7 +7,7 @@ from claripy.errors import ClaripyZeroDivisionError, ClaripyOperationError
 
 from lib import exprs as E
 
-AC_OPS = {"add", "mul", "and", "or", "xor"}         # rewrites of these nodes not explained by a schema go to the AC certificate check
+AC_OPS = {"add", "mul", "and", "or", "xor", "And", "Or"}         # rewrites of these nodes not explained by a schema go to the AC certificate check
 COMPLETE_OPS = {"shl", "Not", "not", "ite"}      # simplifier fully covered by the rule table (first-match enforced)
 
 
